@@ -2307,7 +2307,10 @@ class DiskObjectStore(PackBasedObjectStore):
             ):
                 pass
         except BaseException:
-            final_pack.close()
+            # The traceback of the exception in flight may still reference
+            # the pack's mapping; that must not stop the roll-back.
+            with suppress(BufferError):
+                final_pack.close()
             with suppress(FileNotFoundError):
                 os.remove(target_pack_path)
             with suppress(FileNotFoundError):
